@@ -174,6 +174,65 @@ impl TokenSink for HSink {
 
 mod xml;
 
+/// raw byte chunks through the real tendril::stream::Utf8LossyDecoder: prints what the inner sink received and how
+/// many times error() was called
+fn decode(chunks: &[Vec<u8>]) {
+    use std::borrow::Cow;
+    use tendril::stream::{TendrilSink, Utf8LossyDecoder};
+    use tendril::{fmt, ByteTendril};
+    struct Rec(Vec<u8>, u32);
+    impl TendrilSink<fmt::UTF8> for Rec {
+        fn process(&mut self, t: StrTendril) {
+            self.0.extend_from_slice(t.as_bytes());
+        }
+        fn error(&mut self, _: Cow<'static, str>) {
+            self.1 += 1;
+        }
+        type Output = (Vec<u8>, u32);
+        fn finish(self) -> (Vec<u8>, u32) {
+            (self.0, self.1)
+        }
+    }
+    let mut d = Utf8LossyDecoder::new(Rec(vec![], 0));
+    for c in chunks {
+        d.process(ByteTendril::from_slice(&c[..]));
+    }
+    let (out, errs) = d.finish();
+    let hex: String = out.iter().map(|b| format!("{b:02x}")).collect();
+    println!("out {hex} errors {errs}");
+}
+
+/// `<meta http-equiv=content-type content="...">` through the real tokenizer + tree builder: prints the label of the
+/// EncodingIndicator that feed() returns, or "none".
+fn meta(content: &str) {
+    use html5ever::tree_builder::TreeBuilder;
+    use markup5ever_rcdom::RcDom;
+    let esc = content.replace('&', "&amp;").replace('"', "&quot;");
+    let tb = TreeBuilder::new(RcDom::default(), Default::default());
+    let tok = Tokenizer::new(tb, Default::default());
+    let q = BufferQueue::default();
+    q.push_back(StrTendril::from_slice(&format!("<meta http-equiv=content-type content=\"{esc}\">")));
+    let mut n = 0;
+    loop {
+        match tok.feed(&q) {
+            TokenizerResult::Done => {
+                println!("none");
+                break;
+            },
+            TokenizerResult::EncodingIndicator(l) => {
+                println!("label:{}", &*l);
+                break;
+            },
+            TokenizerResult::Script(_) => {},
+        }
+        n += 1;
+        if n > 8 {
+            println!("none");
+            break;
+        }
+    }
+}
+
 fn main() {
     let mut inp = String::new();
     std::io::stdin().read_to_string(&mut inp).unwrap();
@@ -184,6 +243,8 @@ fn main() {
     let mut on_start = "Continue".to_string();
     let mut chunks: Vec<String> = vec![];
     let mut inject: Option<String> = None;
+    let mut content = String::new();
+    let mut raw_chunks: Vec<Vec<u8>> = vec![];
     for l in inp.lines() {
         let mut it = l.splitn(2, ' ');
         let k = it.next().unwrap();
@@ -200,9 +261,19 @@ fn main() {
             "on_start" => on_start = v.to_string(),
             "chunk" => chunks.push(String::from_utf8(unhex(v)).unwrap()),
             "inject" => inject = Some(String::from_utf8(unhex(v)).unwrap()),
+            "content" => content = String::from_utf8(unhex(v)).unwrap(),
+            "bytes" => raw_chunks.push(unhex(v)),
             "" => {},
             x => panic!("directive {x}"),
         }
+    }
+    if mode == "decode" {
+        decode(&raw_chunks);
+        return;
+    }
+    if mode == "meta" {
+        meta(&content);
+        return;
     }
     if mode == "xml" {
         xml::run(&state, exact, bom, profile, &chunks, end);
